@@ -110,6 +110,7 @@ fn gen_tab(r: &mut Rng, out: &mut Out, len: usize) {
         let mut g = parse_snap(&exec(&format!("init {} h1", uid)));
         let mut next_h = 1;
         let mut peer_max: u64 = r.range(20, 1 << 30);
+        let mut dup_next: Option<u64> = None;
         let mut seen: Vec<u64> = vec![];
         let mut orig: Vec<(usize, String)> = Vec::new();
         for _ in 0..len {
@@ -130,13 +131,21 @@ fn gen_tab(r: &mut Rng, out: &mut Out, len: usize) {
                     // the peer's next message on one of the exchanges; acknowledges what is pending (or not)
                     if live.is_empty() { "t 10".into() } else {
                         let l = r.pick(&live).clone();
-                        let c = match r.below(10) {
+                        let c = if let Some(d) = dup_next.take() { d } else { match r.below(11) {
+                            10 => {
+                                // a jump of exactly the window length (or one off), and then - next
+                                // message - the retransmission of what was the newest before the jump
+                                let before = peer_max;
+                                peer_max += *r.pick(&[15u64, 16, 16, 16, 17]);
+                                if seen.contains(&before) && r.chance(3, 4) { dup_next = Some(before); }
+                                peer_max
+                            }
                             0..=5 => { peer_max += r.range(1, 3); peer_max }
                             6 => peer_max.saturating_sub(r.range(1, 18)),
                             7 => if seen.is_empty() { peer_max } else { *r.pick(&seen) },
                             8 => { peer_max += r.range(15, 40); peer_max }
                             _ => peer_max.saturating_sub(r.range(17, 200)),
-                        };
+                        } };
                         seen.push(c);
                         let ack = match l.3 {
                             Some((pc, _)) if r.chance(3, 4) => pc.to_string(),
